@@ -191,6 +191,7 @@ func c05LeafFault(src, prelude, expr, fault string) c05Leaf {
 
 const c05SmallStack = 16 << 20
 const c05TinyStack = 4 << 20
+const c05BigStack = 128 << 20
 
 // recursion whose recursive call sits in the closure handed to a method or function: one shape per
 // closure-taking built-in of value.New() (c05RecShapes). %R-free: the body calls rf itself.
@@ -283,7 +284,9 @@ func c05LeafRecBounded(sh c05RecShape) c05Leaf {
 func c05LeafRecRunaway(sh c05RecShape) c05Leaf {
 	l := c05LeafFault("recursion-through:"+sh.Method, "func rf(n) "+sh.Body+"; ", "rf(a)",
 		fmt.Sprintf("(FRecThrough %s 1 8 4611686018427387904)", CoqStr(sh.Method)))
-	l.MaxStack, l.D, l.Heavy = c05TinyStack, c05TinyStack/32, true
+	// the stack must hold the levels the guard lets through (about 3300 through map): 128 MB; a method that
+	// forgets the depth of its callers dies there after some seconds
+	l.MaxStack, l.D, l.Heavy = c05BigStack, c05BigStack/1024, true
 	return l
 }
 
@@ -578,6 +581,14 @@ func c05RunAll(cases []c05Case) []c05Out {
 		}(b)
 	}
 	wg.Wait()
+	// a case that timed out while 16 processes competed is repeated alone before it is given up
+	for i := range outs {
+		if outs[i].obs.Class == "skipped" && outs[i].obs.SkipWhy == "timeout" {
+			res, death, to := c05RunBatch([]c05Case{cases[i]}, []int{i}, 150*time.Second)
+			r, have := res[i]
+			outs[i] = c05Out{cases[i], c05Observe(cases[i], r, have, death, to)}
+		}
+	}
 	return outs
 }
 
@@ -786,7 +797,7 @@ func cmdC05(seed int64, tier, outDir string) {
 		for _, cn := range []string{"top", "try", "par-map", "multiuse"} {
 			cases = append(cases, c05Case{c05LeafRecRunaway(c05ShapeOf("list.map")), cn, 2})
 		}
-		cases = append(cases, c05Case{c05LeafRecRunaway(c05ShapeOf("list.accept")), "top", 16}, c05Case{c05LeafDeepBodyRec(), "top", 2}, c05Case{c05LeafDeepBodyRec(), "try", 16})
+		cases = append(cases, c05Case{c05LeafRecRunaway(c05ShapeOf("list.accept")), "top", 16}, c05Case{c05LeafRecRunaway(c05ShapeOf("list.multiUse")), "top", 2}, c05Case{c05LeafRecRunaway(c05ShapeOf("list.multiUse")), "try", 16}, c05Case{c05LeafDeepBodyRec(), "top", 2}, c05Case{c05LeafDeepBodyRec(), "try", 16})
 		// recursion through every closure-taking built-in, to a depth the guard must stop
 		for i, sh := range c05RecShapes {
 			cases = append(cases, c05Case{c05LeafRecBounded(sh), "top", procs[i%3]})
